@@ -7,6 +7,7 @@
    range_tree    the slices `other[lo:hi]` of the generated from_bits text, as a tree
    concat_model  helpers.concat, as a fold                                                        *)
 From PV Require Import Base.Prelude Struct.Shape.
+(* -- *)
 Open Scope Z_scope.
 
 (* ------------------------------------------------------------------ pack *)
